@@ -1,5 +1,627 @@
-use crate::mc::Eng;
+//! C02 — stateless combinators honour their documented error / absent / present contract.
+//! (Also provides the stream-level timestamp cases that C03 re-uses.)
+use crate::env::*;
+use crate::mc::*;
 use crate::Ctx;
-pub fn run(_ctx: &Ctx) -> Vec<Eng> {
-    vec![]
+use rrtk::streams::converters::*;
+use rrtk::streams::flow::*;
+use rrtk::streams::logic::*;
+use rrtk::streams::math::*;
+use rrtk::streams::*;
+use rrtk::*;
+
+#[derive(Clone, Copy, Debug, PartialEq, Eq, Hash)]
+pub enum In {
+    E(u8),
+    N,
+    P,
+}
+pub const CATS: [In; 4] = [In::P, In::N, In::E(1), In::E(2)];
+const PRIMES: [f32; 8] = [2.0, 3.0, 5.0, 7.0, 11.0, 13.0, 17.0, 19.0];
+
+fn cat_name(c: &[In]) -> String {
+    c.iter()
+        .map(|x| match x {
+            In::E(k) => format!("E{}", k),
+            In::N => "N".to_string(),
+            In::P => "P".to_string(),
+        })
+        .collect::<Vec<_>>()
+        .join(",")
+}
+
+fn mk<T: Clone>(c: In, t: i64, v: T) -> Output<T, E> {
+    match c {
+        In::E(k) => Err(Error::Other(k)),
+        In::N => Ok(None),
+        In::P => Ok(Some(Datum::new(Time(t), v))),
+    }
+}
+
+/// Expected result of a combinator: a set of acceptable observations.
+struct Exp {
+    /// acceptable (tag, payload bits) alternatives, each with a list of acceptable times
+    alts: Vec<(Obs, Vec<i64>)>,
+}
+impl Exp {
+    fn one(o: Obs) -> Exp {
+        Exp { alts: vec![(o, vec![o.time])] }
+    }
+    fn err(k: u8) -> Exp {
+        Exp::one(Obs::err(&Error::Other(k)))
+    }
+    fn none() -> Exp {
+        Exp::one(Obs::NONE)
+    }
+    fn some(bits: [u32; 4], times: Vec<i64>) -> Exp {
+        Exp { alts: vec![(Obs { tag: 1, time: 0, bits }, times)] }
+    }
+    fn or(mut self, other: Exp) -> Exp {
+        self.alts.extend(other.alts);
+        self
+    }
+    /// 0 = ok, 1 = category/value wrong, 2 = only the timestamp is wrong
+    fn judge(&self, got: &Obs) -> u8 {
+        let mut val_ok = false;
+        for (o, times) in &self.alts {
+            if o.tag == got.tag && o.bits == got.bits {
+                if got.tag != 1 || times.contains(&got.time) {
+                    return 0;
+                }
+                val_ok = true;
+            }
+        }
+        if val_ok {
+            2
+        } else {
+            1
+        }
+    }
+    fn show(&self) -> String {
+        self.alts
+            .iter()
+            .map(|(o, t)| if o.tag == 1 { format!("{} with time in {:?}", o.show(), t) } else { o.show() })
+            .collect::<Vec<_>>()
+            .join(" | ")
+    }
+}
+
+fn first_err(c: &[In]) -> Option<u8> {
+    c.iter().find_map(|x| if let In::E(k) = x { Some(*k) } else { None })
+}
+
+fn newest(times: &[i64]) -> i64 {
+    *times.iter().max().unwrap()
+}
+
+struct Judge<'a> {
+    eng: &'a mut Eng,
+    time_only: bool,
+}
+impl<'a> Judge<'a> {
+    fn check(&mut self, name: &str, case: &dyn Fn() -> String, got: Result<[Obs; 3], String>, exp: &Exp, size: usize) {
+        self.eng.checks += 1;
+        match got {
+            Err(m) => {
+                if !self.time_only {
+                    self.eng.violation(&format!("comb:{}:panic", name), size, || format!("{} panicked: {}", case(), m));
+                }
+            }
+            Ok(g) => {
+                self.eng.outcome(h64(&(name, g[0])));
+                if g[0] != g[1] || g[1] != g[2] {
+                    if !self.time_only {
+                        self.eng.violation(&format!("comb:{}:impure", name), size, || {
+                            format!("{}: three consecutive get() calls returned {} / {} / {}", case(), g[0].show(), g[1].show(), g[2].show())
+                        });
+                    }
+                    return;
+                }
+                match exp.judge(&g[0]) {
+                    0 => {}
+                    1 => {
+                        // newest-of is a selection: picking a non-newest candidate is a C03 matter too
+                        if !self.time_only || name == "newest-of" {
+                            self.eng.violation(&format!("comb:{}:outcome", name), size, || {
+                                format!("{}: get() = {} but the documented outcome is {}", case(), g[0].show(), exp.show())
+                            });
+                        }
+                    }
+                    _ => {
+                        self.eng.violation(&format!("comb:{}:time", name), size, || {
+                            format!("{}: get() = {} but the timestamp must be {}", case(), g[0].show(), exp.show())
+                        });
+                    }
+                }
+            }
+        }
+    }
+}
+
+fn three<T: Payload, G: Getter<T, E> + ?Sized>(g: &G) -> [Obs; 3] {
+    [obs(&g.get()), obs(&g.get()), obs(&g.get())]
+}
+
+// ------------------------------------------------------------------ n-ary
+fn nary<const N: usize>(cats: &[In], times: &[i64], j: &mut Judge, quantity: bool) {
+    let case = || format!("arity {} inputs [{}] times {:?}", N, cat_name(cats), times);
+    let present: Vec<usize> = (0..N).filter(|&i| cats[i] == In::P).collect();
+    let ptimes: Vec<i64> = present.iter().map(|&i| times[i]).collect();
+    // f32 payload
+    {
+        let ins: Vec<_> = (0..N).map(|i| rc(Scr::<f32>::new(mk(cats[i], times[i], PRIMES[i])))).collect();
+        let arr = || -> [Reference<dyn Getter<f32, E>>; N] { core::array::from_fn(|i| dyn_getter(&ins[i])) };
+        let exp_fold = |f: fn(f32, f32) -> f32| -> Exp {
+            if let Some(k) = first_err(cats) {
+                Exp::err(k)
+            } else if present.is_empty() {
+                Exp::none()
+            } else {
+                let mut v = PRIMES[present[0]];
+                for &i in &present[1..] {
+                    v = f(v, PRIMES[i]);
+                }
+                Exp::some(v.bits(), vec![newest(&ptimes)])
+            }
+        };
+        let got = guard(|| three(&SumStream::new(arr())));
+        j.check("sum", &case, got, &exp_fold(|a, b| a + b), N);
+        let got = guard(|| three(&ProductStream::new(arr())));
+        j.check("product", &case, got, &exp_fold(|a, b| a * b), N);
+        let got = guard(|| three(&Latest::new(arr())));
+        let exp = if present.is_empty() {
+            Exp::none()
+        } else {
+            let nt = newest(&ptimes);
+            let mut e = Exp { alts: vec![] };
+            for &i in &present {
+                if times[i] == nt {
+                    e.alts.push((Obs { tag: 1, time: 0, bits: PRIMES[i].bits() }, vec![nt]));
+                }
+            }
+            e
+        };
+        j.check("newest-of", &case, got, &exp, N);
+        // inputs untouched
+        for i in 0..N {
+            if obs(&ins[i].borrow().next) != obs(&mk(cats[i], times[i], PRIMES[i])) {
+                j.eng.violation("comb:nary:input-modified", N, || case());
+            }
+        }
+        if N == 2 {
+            let g2s = guard(|| three(&Sum2::new(rf(&ins[0]), rf(&ins[1]))));
+            let gns = guard(|| three(&SumStream::new(arr())));
+            if !j.time_only && g2s != gns {
+                j.eng.violation("comb:sum2-vs-sum:differ", 2, || format!("{}: Sum2 {:?} vs SumStream<2> {:?}", case(), g2s, gns));
+            }
+            let g2p = guard(|| three(&Product2::new(rf(&ins[0]), rf(&ins[1]))));
+            let gnp = guard(|| three(&ProductStream::new(arr())));
+            if !j.time_only && g2p != gnp {
+                j.eng.violation("comb:product2-vs-product:differ", 2, || format!("{}: Product2 {:?} vs ProductStream<2> {:?}", case(), g2p, gnp));
+            }
+        }
+    }
+    if quantity {
+        // Quantity payload: same unit for sums, distinct units for products
+        let us = [MILLIMETER, SECOND, MILLIMETER_PER_SECOND, INVERSE_SECOND, MILLIMETER_SQUARED, SECOND_SQUARED, DIMENSIONLESS, INVERSE_MILLIMETER];
+        let ins_s: Vec<_> = (0..N).map(|i| rc(Scr::<Quantity>::new(mk(cats[i], times[i], Quantity::new(PRIMES[i], MILLIMETER))))).collect();
+        let ins_p: Vec<_> = (0..N).map(|i| rc(Scr::<Quantity>::new(mk(cats[i], times[i], Quantity::new(PRIMES[i], us[i]))))).collect();
+        let arr_s = || -> [Reference<dyn Getter<Quantity, E>>; N] { core::array::from_fn(|i| dyn_getter(&ins_s[i])) };
+        let arr_p = || -> [Reference<dyn Getter<Quantity, E>>; N] { core::array::from_fn(|i| dyn_getter(&ins_p[i])) };
+        let exp_s = if let Some(k) = first_err(cats) {
+            Exp::err(k)
+        } else if present.is_empty() {
+            Exp::none()
+        } else {
+            let v: f32 = present[1..].iter().fold(PRIMES[present[0]], |a, &i| a + PRIMES[i]);
+            Exp::some(Quantity::new(v, MILLIMETER).bits(), vec![newest(&ptimes)])
+        };
+        let exp_p = if let Some(k) = first_err(cats) {
+            Exp::err(k)
+        } else if present.is_empty() {
+            Exp::none()
+        } else {
+            let mut q = Quantity::new(PRIMES[present[0]], us[present[0]]);
+            let (mut m, mut s) = unit_exps(q.unit);
+            for &i in &present[1..] {
+                q.value *= PRIMES[i];
+                let (m2, s2) = unit_exps(us[i]);
+                m += m2;
+                s += s2;
+            }
+            let mut b = q.bits();
+            b[3] = (m * 1000 + s) as u32;
+            if !cfg!(feature = "dimcheck") {
+                b[3] = 0;
+            }
+            Exp::some(b, vec![newest(&ptimes)])
+        };
+        let got = guard(|| three(&SumStream::new(arr_s())));
+        j.check("sum-quantity", &case, got, &exp_s, N);
+        let got = guard(|| three(&ProductStream::new(arr_p())));
+        j.check("product-quantity", &case, got, &exp_p, N);
+    }
+}
+
+fn nary_dispatch(n: usize, cats: &[In], times: &[i64], j: &mut Judge) {
+    let q = n <= 3;
+    match n {
+        1 => nary::<1>(cats, times, j, q),
+        2 => nary::<2>(cats, times, j, q),
+        3 => nary::<3>(cats, times, j, q),
+        4 => nary::<4>(cats, times, j, q),
+        5 => nary::<5>(cats, times, j, q),
+        6 => nary::<6>(cats, times, j, q),
+        7 => nary::<7>(cats, times, j, q),
+        8 => nary::<8>(cats, times, j, q),
+        _ => unreachable!(),
+    }
+}
+
+/// Assign times to the present inputs from a rank vector; bases cross zero.
+fn times_from_ranks(cats: &[In], ranks: &[usize], base: i64, step: i64) -> Vec<i64> {
+    let mut t = vec![base - 100; cats.len()];
+    let mut k = 0;
+    for i in 0..cats.len() {
+        if cats[i] == In::P {
+            t[i] = base + step * ranks[k] as i64;
+            k += 1;
+        }
+    }
+    t
+}
+
+pub fn run_nary(eng: &mut Eng, max_weak: usize, max_n: usize, time_only: bool) {
+    for n in 1..=max_n {
+        let total = ipow(4, n);
+        let mut cats = vec![In::N; n];
+        let mut digits = vec![0usize; n];
+        for idx in 0..total {
+            decode(idx, 4, &mut digits);
+            for i in 0..n {
+                cats[i] = CATS[digits[i]];
+            }
+            let np = cats.iter().filter(|c| **c == In::P).count();
+            let orders: Vec<Vec<usize>> = if n <= max_weak {
+                weak_orders(np)
+            } else {
+                // three timestamp levels for the large arities
+                let mut v = Vec::new();
+                let mut r = vec![0usize; np];
+                for k in 0..ipow(3, np) {
+                    decode(k, 3, &mut r);
+                    v.push(r.clone());
+                }
+                v
+            };
+            for ranks in &orders {
+                for (base, step) in [(-7i64, 5i64), (1_000_000_000_000, 1)] {
+                    let times = times_from_ranks(&cats, ranks, base, step);
+                    eng.executions += 1;
+                    eng.states += 1;
+                    eng.transitions += 3;
+                    if np >= 2 || (np >= 1 && np < n) {
+                        eng.nontrivial += 1;
+                    }
+                    let mut j = Judge { eng, time_only };
+                    nary_dispatch(n, &cats, &times, &mut j);
+                    if n == 3 && idx % 17 == 0 {
+                        eng.sample(|| format!("sum/product/newest-of arity 3: [{}] times {:?}", cat_name(&cats), times));
+                    }
+                }
+            }
+        }
+        eng.max_depth = eng.max_depth.max(n as u64);
+    }
+}
+
+// ------------------------------------------------------------------ binary / unary / selection
+fn kleene_and(a: Option<bool>, b: Option<bool>) -> Option<bool> {
+    match (a, b) {
+        (Some(false), _) | (_, Some(false)) => Some(false),
+        (Some(true), Some(true)) => Some(true),
+        _ => None,
+    }
+}
+fn kleene_or(a: Option<bool>, b: Option<bool>) -> Option<bool> {
+    match (a, b) {
+        (Some(true), _) | (_, Some(true)) => Some(true),
+        (Some(false), Some(false)) => Some(false),
+        _ => None,
+    }
+}
+
+pub fn run_fixed(eng: &mut Eng, time_only: bool) {
+    let rel_times: [(i64, i64); 7] = [(3, 8), (8, 3), (5, 5), (-4, -9), (-9, -4), (i64::MIN, i64::MIN + 1), (i64::MAX, i64::MAX - 1)];
+    // ---- two-input arithmetic
+    for &c0 in &CATS {
+        for &c1 in &CATS {
+            for &(t0, t1) in &rel_times {
+                let cats = [c0, c1];
+                let case = || format!("inputs [{}] times ({}, {})", cat_name(&cats), t0, t1);
+                eng.executions += 1;
+                eng.states += 1;
+                eng.transitions += 3 * 6;
+                if c0 == In::P && c1 == In::P {
+                    eng.nontrivial += 1;
+                }
+                let a = rc(Scr::<f32>::new(mk(c0, t0, 12.0f32)));
+                let b = rc(Scr::<f32>::new(mk(c1, t1, 3.0f32)));
+                let mut j = Judge { eng, time_only };
+                let tmax = t0.max(t1);
+                // Sum2 / Product2
+                let exp2 = |f: fn(f32, f32) -> f32| -> Exp {
+                    match (c0, c1) {
+                        (In::E(k), _) => Exp::err(k),
+                        (In::N, In::E(k)) => Exp::err(k),
+                        (In::N, In::N) => Exp::none(),
+                        (In::N, In::P) => Exp::some(3.0f32.bits(), vec![t1]),
+                        (In::P, In::E(k)) => Exp::err(k),
+                        (In::P, In::N) => Exp::some(12.0f32.bits(), vec![t0]),
+                        (In::P, In::P) => Exp::some(f(12.0, 3.0).bits(), vec![tmax]),
+                    }
+                };
+                j.check("sum2", &case, guard(|| three(&Sum2::new(rf(&a), rf(&b)))), &exp2(|x, y| x + y), 2);
+                j.check("product2", &case, guard(|| three(&Product2::new(rf(&a), rf(&b)))), &exp2(|x, y| x * y), 2);
+                // difference / quotient / exponent: first absent => absent, second absent => pass through
+                let exp3 = |f: fn(f32, f32) -> f32| -> Exp {
+                    match (c0, c1) {
+                        (In::E(k), _) => Exp::err(k),
+                        // first absent and second erroring: the error rule and the absent rule both apply
+                        (In::N, In::E(k)) => Exp::err(k).or(Exp::none()),
+                        (In::N, _) => Exp::none(),
+                        (In::P, In::E(k)) => Exp::err(k),
+                        (In::P, In::N) => Exp::some(12.0f32.bits(), vec![t0]),
+                        (In::P, In::P) => Exp::some(f(12.0, 3.0).bits(), vec![tmax]),
+                    }
+                };
+                j.check("difference", &case, guard(|| three(&DifferenceStream::new(rf(&a), rf(&b)))), &exp3(|x, y| x - y), 2);
+                j.check("quotient", &case, guard(|| three(&QuotientStream::new(rf(&a), rf(&b)))), &exp3(|x, y| x / y), 2);
+                j.check("exponent", &case, guard(|| three(&ExponentStream::new(rf(&a), rf(&b)))), &exp3(|x, y| crate::refmodels::backend_powf(x, y)), 2);
+                // Quantity difference / quotient
+                let qa = rc(Scr::<Quantity>::new(mk(c0, t0, Quantity::new(12.0, MILLIMETER))));
+                let qb = rc(Scr::<Quantity>::new(mk(c1, t1, Quantity::new(3.0, MILLIMETER))));
+                let expq = |v: f32, u: Unit| -> Exp {
+                    match (c0, c1) {
+                        (In::E(k), _) => Exp::err(k),
+                        (In::N, In::E(k)) => Exp::err(k).or(Exp::none()),
+                        (In::N, _) => Exp::none(),
+                        (In::P, In::E(k)) => Exp::err(k),
+                        (In::P, In::N) => Exp::some(Quantity::new(12.0, MILLIMETER).bits(), vec![t0]),
+                        (In::P, In::P) => Exp::some(Quantity::new(v, u).bits(), vec![tmax]),
+                    }
+                };
+                j.check("difference-quantity", &case, guard(|| three(&DifferenceStream::new(rf(&qa), rf(&qb)))), &expq(9.0, MILLIMETER), 2);
+                j.check("quotient-quantity", &case, guard(|| three(&QuotientStream::new(rf(&qa), rf(&qb)))), &expq(4.0, DIMENSIONLESS), 2);
+            }
+        }
+    }
+    // ---- logic: inputs {true,false,N,E1,E2}
+    #[derive(Clone, Copy, PartialEq, Debug)]
+    enum B {
+        T,
+        F,
+        N,
+        E(u8),
+    }
+    let bs = [B::T, B::F, B::N, B::E(1), B::E(2)];
+    let mkb = |b: B, t: i64| -> Output<bool, E> {
+        match b {
+            B::T => Ok(Some(Datum::new(Time(t), true))),
+            B::F => Ok(Some(Datum::new(Time(t), false))),
+            B::N => Ok(None),
+            B::E(k) => Err(Error::Other(k)),
+        }
+    };
+    let val = |b: B| match b {
+        B::T => Some(true),
+        B::F => Some(false),
+        _ => None,
+    };
+    for &b0 in &bs {
+        for &b1 in &bs {
+            for &(t0, t1) in &rel_times {
+                let case = || format!("inputs [{:?},{:?}] times ({}, {})", b0, b1, t0, t1);
+                eng.executions += 1;
+                eng.states += 1;
+                eng.transitions += 3 * 5;
+                if val(b0).is_some() && val(b1).is_some() {
+                    eng.nontrivial += 1;
+                }
+                let a = rc(Scr::<bool>::new(mkb(b0, t0)));
+                let b = rc(Scr::<bool>::new(mkb(b1, t1)));
+                let mut j = Judge { eng, time_only };
+                let explogic = |f: fn(Option<bool>, Option<bool>) -> Option<bool>, decisive: bool| -> Exp {
+                    if let B::E(k) = b0 {
+                        return Exp::err(k);
+                    }
+                    if let B::E(k) = b1 {
+                        return Exp::err(k);
+                    }
+                    match f(val(b0), val(b1)) {
+                        None => Exp::none(),
+                        Some(r) => {
+                            // acceptable timestamps: newest of all present inputs, or newest of the deciding ones
+                            let mut ts = Vec::new();
+                            let pres: Vec<i64> = [(b0, t0), (b1, t1)].iter().filter(|(x, _)| val(*x).is_some()).map(|(_, t)| *t).collect();
+                            ts.push(newest(&pres));
+                            let dec: Vec<i64> = [(b0, t0), (b1, t1)].iter().filter(|(x, _)| val(*x) == Some(decisive)).map(|(_, t)| *t).collect();
+                            if r == decisive && !dec.is_empty() {
+                                ts.push(newest(&dec));
+                            }
+                            Exp::some(r.bits(), ts)
+                        }
+                    }
+                };
+                let g_and = guard(|| three(&AndStream::new(rf(&a), rf(&b))));
+                let g_or = guard(|| three(&OrStream::new(rf(&a), rf(&b))));
+                j.check("and", &case, g_and.clone(), &explogic(kleene_and, false), 2);
+                j.check("or", &case, g_or.clone(), &explogic(kleene_or, true), 2);
+                // De Morgan on the real streams (category and value; timestamps are judged above)
+                let g_nand = guard(|| {
+                    let inner = rc(AndStream::new(rf(&a), rf(&b)));
+                    three(&NotStream::new(rf(&inner)))
+                });
+                let g_or_nots = guard(|| {
+                    let na = rc(NotStream::new(rf(&a)));
+                    let nb = rc(NotStream::new(rf(&b)));
+                    three(&OrStream::new(rf(&na), rf(&nb)))
+                });
+                let g_nor = guard(|| {
+                    let inner = rc(OrStream::new(rf(&a), rf(&b)));
+                    three(&NotStream::new(rf(&inner)))
+                });
+                let g_and_nots = guard(|| {
+                    let na = rc(NotStream::new(rf(&a)));
+                    let nb = rc(NotStream::new(rf(&b)));
+                    three(&AndStream::new(rf(&na), rf(&nb)))
+                });
+                let strip = |g: &Result<[Obs; 3], String>| g.clone().map(|x| (x[0].tag, x[0].bits)).ok();
+                if !time_only {
+                    if strip(&g_nand) != strip(&g_or_nots) {
+                        j.eng.violation("comb:de-morgan:not-and", 2, || format!("{}: not(and) = {:?} but or(not,not) = {:?}", case(), g_nand, g_or_nots));
+                    }
+                    if strip(&g_nor) != strip(&g_and_nots) {
+                        j.eng.violation("comb:de-morgan:not-or", 2, || format!("{}: not(or) = {:?} but and(not,not) = {:?}", case(), g_nor, g_and_nots));
+                    }
+                }
+            }
+            // not
+            let t0 = -3;
+            let a = rc(Scr::<bool>::new(mkb(b0, t0)));
+            let case = || format!("input {:?} time {}", b0, t0);
+            let exp = match b0 {
+                B::E(k) => Exp::err(k),
+                B::N => Exp::none(),
+                x => Exp::some((!val(x).unwrap()).bits(), vec![t0]),
+            };
+            let mut j = Judge { eng, time_only };
+            j.check("not", &case, guard(|| three(&NotStream::new(rf(&a)))), &exp, 1);
+        }
+    }
+    // ---- if / if-else: condition {T,F,N,E1} x input(s) {P,N,E2,E3}
+    let conds = [B::T, B::F, B::N, B::E(1)];
+    let ins = [In::P, In::N, In::E(2), In::E(3)];
+    for &c in &conds {
+        for &i0 in &ins {
+            for &i1 in &ins {
+                let case = || format!("condition {:?} true-input {:?} false-input {:?}", c, i0, i1);
+                eng.executions += 1;
+                eng.states += 1;
+                eng.transitions += 6;
+                eng.nontrivial += 1;
+                let cg = rc(Scr::<bool>::new(mkb(c, 50)));
+                let a = rc(Scr::<f32>::new(mk(i0, 7, 21.0f32)));
+                let b = rc(Scr::<f32>::new(mk(i1, -7, 34.0f32)));
+                let pass = |i: In, t: i64, v: f32| -> Exp {
+                    match i {
+                        In::E(k) => Exp::err(k),
+                        In::N => Exp::none(),
+                        In::P => Exp::some(v.bits(), vec![t]),
+                    }
+                };
+                let exp_if = match c {
+                    B::E(k) => Exp::err(k),
+                    B::T => pass(i0, 7, 21.0),
+                    _ => Exp::none(),
+                };
+                let exp_ifelse = match c {
+                    B::E(k) => Exp::err(k),
+                    B::N => Exp::none(),
+                    B::T => pass(i0, 7, 21.0),
+                    B::F => pass(i1, -7, 34.0),
+                };
+                let mut j = Judge { eng, time_only };
+                j.check("if", &case, guard(|| three(&IfStream::new(rf(&cg), rf(&a)))), &exp_if, 2);
+                j.check("if-else", &case, guard(|| three(&IfElseStream::new(rf(&cg), rf(&a), rf(&b)))), &exp_ifelse, 3);
+            }
+        }
+    }
+    // ---- expirer, none-to-error, none-to-value, constant getter, none getter
+    let tgs: [TimeOutput<E>; 3] = [Ok(Time(1000)), Ok(Time(-1000)), Err(E3)];
+    for &c in &CATS {
+        for tg in &tgs {
+            for age_rel in [-1i64, 0, 1] {
+                for limit in [0i64, 10, 1_000_000_000] {
+                    let now = match tg {
+                        Ok(t) => t.0,
+                        Err(_) => 0,
+                    };
+                    let tdata = now - (limit + age_rel); // age = limit + age_rel
+                    let case = || format!("input {:?} at time {} time-getter {:?} limit {}", c, tdata, tg, limit);
+                    eng.executions += 1;
+                    eng.states += 1;
+                    eng.transitions += 9;
+                    if c == In::P && tg.is_ok() {
+                        eng.nontrivial += 1;
+                    }
+                    let a = rc(Scr::<f32>::new(mk(c, tdata, 21.0f32)));
+                    let t = rc(ScrTime::new(*tg));
+                    let exp = match (c, tg) {
+                        (In::E(k), _) => Exp::err(k),
+                        (In::N, Err(_)) => Exp::none().or(Exp::one(Obs::err(&E3))),
+                        (In::N, _) => Exp::none(),
+                        (In::P, Err(_)) => Exp::one(Obs::err(&E3)),
+                        (In::P, Ok(_)) => {
+                            if age_rel > 0 {
+                                Exp::none()
+                            } else {
+                                Exp::some(21.0f32.bits(), vec![tdata])
+                            }
+                        }
+                    };
+                    let mut j = Judge { eng, time_only };
+                    j.check("expirer", &case, guard(|| three(&Expirer::new(rf(&a), rf(&t), Time(limit)))), &exp, 2);
+                    if age_rel == 0 && limit == 10 {
+                        let exp_nte = match c {
+                            In::E(k) => Exp::err(k),
+                            In::N => Exp::one(Obs::err(&Error::FromNone)),
+                            In::P => Exp::some(21.0f32.bits(), vec![tdata]),
+                        };
+                        j.check("none-to-error", &case, guard(|| three(&NoneToError::new(rf(&a)))), &exp_nte, 1);
+                        let exp_ntv = match (c, tg) {
+                            (In::E(k), _) => Exp::err(k),
+                            (In::P, _) => Exp::some(21.0f32.bits(), vec![tdata]),
+                            (In::N, Ok(t)) => Exp::some(55.0f32.bits(), vec![t.0]),
+                            (In::N, Err(_)) => Exp::one(Obs::err(&E3)),
+                        };
+                        j.check("none-to-value", &case, guard(|| three(&NoneToValue::new(rf(&a), rf(&t), 55.0f32))), &exp_ntv, 2);
+                        let exp_const = match tg {
+                            Ok(t) => Exp::some(8.5f32.bits(), vec![t.0]),
+                            Err(_) => Exp::one(Obs::err(&E3)),
+                        };
+                        j.check("constant-getter", &case, guard(|| three(&ConstantGetter::new(rf(&t), 8.5f32))), &exp_const, 1);
+                        let ng = guard(|| {
+                            let g = NoneGetter::new();
+                            let o: [Obs; 3] = [
+                                obs(&<NoneGetter as Getter<f32, E>>::get(&g)),
+                                obs(&<NoneGetter as Getter<f32, E>>::get(&g)),
+                                obs(&<NoneGetter as Getter<f32, E>>::get(&g)),
+                            ];
+                            o
+                        });
+                        j.check("none-getter", &case, ng, &Exp::none(), 1);
+                    }
+                }
+            }
+        }
+    }
+    eng.sample(|| "and/or/not: inputs [T,E(1)] times (3, 8); if/if-else: condition F true-input P false-input E(3); expirer: input P age = limit+1".to_string());
+}
+
+pub fn run(ctx: &Ctx) -> Vec<Eng> {
+    let (mw, mn) = if ctx.thorough { (6, 8) } else { (5, 5) };
+    let mut e1 = Eng::new(
+        "c02-nary",
+        "n-ary sum, product (f32 and Quantity payloads) and newest-of: every assignment of {P,N,E1,E2} to the inputs x every weak order of the present inputs' timestamps (two time bases, one crossing zero); reference = rustdoc contract (first error wins, absent skipped, fold in input order, newest time); get() called three times; Sum2/Product2 compared with the 2-ary streams; non-trivial = at least two present inputs or a mix of present and non-present",
+        &format!("arities 1..={} (all weak orders up to arity {}, three timestamp levels above)", mn, mw),
+    );
+    run_nary(&mut e1, mw, mn, false);
+    let mut e2 = Eng::new(
+        "c02-fixed-arity",
+        "Sum2, Product2, difference, quotient, exponent (f32 and Quantity), and, or, not, De Morgan pairs, if, if-else, expirer (age <,=,> limit), none-to-error, none-to-value, constant getter, none getter: every input category assignment x seven timestamp relations incl. i64 extremes; non-trivial = all inputs present (arithmetic/logic) or every case (selection)",
+        "all category assignments x 7 timestamp pairs",
+    );
+    run_fixed(&mut e2, false);
+    vec![e1, e2]
 }
